@@ -31,28 +31,29 @@ def main():
     if "--tier" in sys.argv:
         tier = sys.argv[sys.argv.index("--tier") + 1]
         args = [a for a in args if a != tier]
+    repo = os.environ.get("VF_REPO", "/repo")
     seed = os.path.abspath(args[0])
     pids = args[1:]
     patch = os.path.join(seed, "patch.diff")
     demo = os.path.join(seed, "demo.py")
-    env = dict(os.environ, PYTHONPATH="/repo", MPLBACKEND="Agg")
-    res = {"seed": seed, "tier": tier}
-    rc, out = sh("git -C /repo status --porcelain")
+    env = dict(os.environ, PYTHONPATH=repo, MPLBACKEND="Agg")
+    res = {"seed": seed, "tier": tier, "repo": repo}
+    rc, out = sh(f"git -C {repo} status --porcelain")
     if out.strip():
         print("refusing: /repo working tree is not clean:\n" + out)
         return 2
-    rc, out = sh(f"/venv/bin/python {demo}", cwd="/repo", env=env, timeout=600)
+    rc, out = sh(f"/venv/bin/python {demo}", cwd=repo, env=env, timeout=600)
     res["demo_unpatched_rc"] = rc
-    rc, out = sh(f"git -C /repo apply {patch}")
+    rc, out = sh(f"git -C {repo} apply {patch}")
     if rc != 0:
         res["apply_error"] = out[-400:]
         print(json.dumps(res, indent=1))
         return 2
     try:
-        rc, out = sh("/venv/bin/python " + os.path.join(ROOT, "tools/baseline_check.py"), cwd="/repo", timeout=1800)
+        rc, out = sh("/venv/bin/python " + os.path.join(ROOT, "tools/baseline_check.py"), cwd=repo, timeout=1800)
         res["baseline_rc"] = rc
         res["baseline"] = out.strip().splitlines()[-3:]
-        rc, out = sh(f"/venv/bin/python {demo}", cwd="/repo", env=env, timeout=600)
+        rc, out = sh(f"/venv/bin/python {demo}", cwd=repo, env=env, timeout=600)
         res["demo_patched_rc"] = rc
         res["demo_patched_tail"] = out.strip().splitlines()[-3:]
         res["checks"] = {}
@@ -62,7 +63,7 @@ def main():
             lines = [l for l in out.splitlines() if l.startswith("VIOLATION") or l.startswith("  key=") or l.startswith("vf:")]
             res["checks"][pid] = {"rc": rc, "wall_s": round(time.time() - t, 1), "lines": lines[:7]}
     finally:
-        sh("git -C /repo checkout -- .")
+        sh(f"git -C {repo} checkout -- .")
     print(json.dumps(res, indent=1))
     ok = res.get("baseline_rc") == 0 and res.get("demo_unpatched_rc") == 0 and res.get("demo_patched_rc", 0) != 0
     res["valid_seed"] = ok
